@@ -8,6 +8,7 @@ import HappyProofs.C17.MLMRun
 import HappyProofs.C17.MLJudge
 import HappyProofs.C17.MLMMain
 import HappyProofs.C17.MLTOrd
+import HappyProofs.C17.MLTMain
 /-!
 # C17 — property theorems
 
@@ -615,6 +616,69 @@ example :
       [.tick 10, .cw 0 1 0 7, .rs 0, .rs 0, .tick 12, .cw 1 2 0 8, .rs 1, .rs 1, .dl 1, .rs 2, .dl 0,
        .ae 1 0, .rs 4, .dl 2, .rs 5, .dl 3, .rs 6, .ae 2 0, .rs 7, .dl 4, .ae 1 0, .rs 9, .dl 5]
     s.err = none ∧ MLT.quiescentB s = true ∧ s.store 0 0 = some 8 ∧ s.store 1 0 = some 8 ∧ s.store 2 0 = some 8 := by
+  decide
+
+/-! ## last-writer-wins on any peer topology, run level (`MLT`) -/
+
+/-- **Star / line / any topology, resolver that returns one of its inputs: anti-entropy having run ⇒ all
+    leaders agree.**  For every peer topology `adj` (each leader's own peer list — mesh, star, line or
+    anything else, symmetric or not), every action list of the `MLT` transition system (writes at any
+    leaders replicated to their peers only, `Replicate` and anti-entropy messages delivered in any order,
+    handlers resumed in any order, crossing exchanges, stale traffic) whose stamped versions are coherent:
+    if, after the last client-write / `Replicate` handler step, the anti-entropy *requests* carry every
+    leader's knowledge to every leader (`MLM.KComplete` of `MLT.krun`, the forward form of
+    `Spec.gossipComplete`), all leaders hold the same version and the same value of every key.
+    Quiescence is not needed for the conclusion (a `Replicate` still in flight is not part of what the
+    leaders agree on); `mlt_quiescent_gossip_complete_converges` is the form the judge evaluates. -/
+theorem mlt_gossip_complete_converges {P : Nat → ML.Version → Prop} (n nk : Nat) (jn : MLM.Join)
+    (adj : List (List Nat)) (acts : List Act) (hc : ∀ k, ML.Coherent n (P k))
+    (hP : ∀ kv, kv ∈ MLT.created (MLT.init n nk jn true adj) acts → P kv.1 kv.2)
+    (hk : MLM.KComplete n (MLT.krun (MLT.init n nk jn true adj) MLM.GK.reset acts).2)
+    (i j k : Nat) (hi : i < n) (hj : j < n) :
+    (MLT.run (MLT.init n nk jn true adj) acts).vers i k = (MLT.run (MLT.init n nk jn true adj) acts).vers j k ∧
+    (MLT.run (MLT.init n nk jn true adj) acts).store i k = (MLT.run (MLT.init n nk jn true adj) acts).store j k :=
+  MLT.gossip_complete_converges n nk jn adj acts hc hP hk i j k hi hj
+
+theorem mlt_quiescent_gossip_complete_converges (n nk : Nat) (jn : MLM.Join)
+    (adj : List (List Nat)) (acts : List Act)
+    (hc : ∀ k, ML.Coherent n (fun v => (k, v) ∈ MLT.created (MLT.init n nk jn true adj) acts))
+    (_hq : MLT.quiescentB (MLT.run (MLT.init n nk jn true adj) acts) = true)
+    (hk : MLM.KComplete n (MLT.krun (MLT.init n nk jn true adj) MLM.GK.reset acts).2)
+    (i j k : Nat) (hi : i < n) (hj : j < n) :
+    (MLT.run (MLT.init n nk jn true adj) acts).store i k = (MLT.run (MLT.init n nk jn true adj) acts).store j k :=
+  (MLT.gossip_complete_converges (P := fun k v => (k, v) ∈ MLT.created (MLT.init n nk jn true adj) acts)
+    n nk jn adj acts hc (fun _ h => h) hk i j k hi hj).2
+
+/-- the judge's off-mesh convergence clause (`Spec.judgeMLt n false false`) is silent on the model, under
+    the same two reading hypotheses as on the mesh (`hfin`, `hlog`) -/
+theorem mlt_judge_convergence_silent (n nk : Nat) (jn : MLM.Join) (adj : List (List Nat)) (acts : List Act)
+    (hc : ∀ k, ML.Coherent n (fun v => (k, v) ∈ MLT.created (MLT.init n nk jn true adj) acts))
+    (steps : List Spec.Step)
+    (hfin : Spec.finalStores steps = modelStores (MLT.run (MLT.init n nk jn true adj) acts).store n nk)
+    (hlog : Spec.gossipComplete n steps = true →
+      MLM.KComplete n (MLT.krun (MLT.init n nk jn true adj) MLM.GK.reset acts).2) :
+    Spec.judgeMLt n false false steps (MLT.quiescentB (MLT.run (MLT.init n nk jn true adj) acts)) = none := by
+  unfold Spec.judgeMLt
+  simp only [Bool.false_eq_true, if_false]
+  cases hq : MLT.quiescentB (MLT.run (MLT.init n nk jn true adj) acts) with
+  | false => simp
+  | true =>
+    cases hg : Spec.gossipComplete n steps with
+    | false => simp
+    | true =>
+      have hcv := converged_of_agree (MLT.run (MLT.init n nk jn true adj) acts).store n nk
+        (fun i j k hi hj => mlt_quiescent_gossip_complete_converges n nk jn adj acts hc hq (hlog hg) i j k hi hj)
+      rw [hfin, hcv]; simp
+
+/-- non-vacuity: the recorded star run (spokes 1 and 2 write concurrently, then anti-entropy ticks
+    at 1, 2 and twice at the hub): knowledge complete, versions coherent -/
+example :
+    let acts : List Act := [.tick 10, .cw 0 1 0 7, .rs 0, .rs 0, .tick 12, .cw 1 2 0 8, .rs 1, .rs 1, .dl 1, .rs 2, .dl 0,
+       .ae 1 0, .rs 4, .dl 2, .rs 5, .dl 3, .rs 6, .ae 2 0, .rs 7, .dl 4, .ae 0 1, .rs 9, .dl 5, .ae 0 2, .rs 11, .dl 6]
+    MLM.kcompleteB 3 (MLT.krun (MLT.init 3 1 .union true (MLT.star 3)) MLM.GK.reset acts).2 = true ∧
+    (MLT.created (MLT.init 3 1 .union true (MLT.star 3)) acts).map (fun kv => (kv.2.val, kv.2.ts, kv.2.writer, kv.2.vc)) =
+      [(7, 10, 1, [0, 1, 0]), (8, 12, 2, [0, 0, 1])] ∧
+    ML.coherentB 3 ((MLT.created (MLT.init 3 1 .union true (MLT.star 3)) acts).map (·.2)) = true := by
   decide
 
 end HappyModel.C17
